@@ -571,6 +571,34 @@ pub fn histories(ctx: &Ctx) -> Report {
 }
 
 /// Long histories: sizes at successive quiescent points must stay zero (no growth).
+/// The operation that connection setup itself runs (StartTLS) is a completed operation like any
+/// other: on a freshly established TLS connection, and after further completed operations, no message
+/// ID is reserved. Real loopback TCP + TLS (the in-memory transport cannot do StartTLS).
+pub fn tls_connections(_ctx: &Ctx) -> Report {
+    let mut rep = Report::new();
+    if std::env::var("SSL_CERT_FILE").is_err() {
+        rep.inconclusive("SSL_CERT_FILE is not set: the TLS connection probe was skipped");
+        return rep;
+    }
+    for (mode, outcome, tables) in crate::lanes::c17::reserved_ids_probe() {
+        let replay = json!({"lane":"tls_connections","mode":mode});
+        if outcome != "Ok" || tables.len() < 2 {
+            rep.inconclusive(format!("{}: establishment {} ({} tables)", mode, outcome, tables.len()));
+            continue;
+        }
+        if !tables[0].is_empty() {
+            rep.violation("C13:id-retained-after:connection-setup", format!("{}: IDs {:?} reserved right after establishment", mode, tables[0]), replay.clone());
+        }
+        if !tables[1].is_empty() {
+            rep.violation("C13:id-retained-after:operations-on-a-tls-connection", format!("{}: IDs {:?} reserved after two completed binds", mode, tables[1]), replay.clone());
+        }
+        rep.count("tls_connections_checked", 1);
+        rep.case(Some(fnv(mode.as_bytes())));
+    }
+    rep.sample(json!({"lane":"tls_connections","modes":["ldap + StartTLS","ldaps"]}));
+    rep
+}
+
 pub fn long_histories(ctx: &Ctx) -> Report {
     let n = ctx.n(160, 100_000);
     par_cases(ctx, "long_histories", n, ctx.secs(30, 600), |i, rng, rep| run_case(i, rng, rep, if ctx.tiny { 20 } else { 600 }, false))
